@@ -667,7 +667,7 @@ pub fn owned_prefixes(prop: &str) -> &'static [&'static str] {
     match prop {
         "C01" => &["ledger/dup-receive", "ledger/lost", "ledger/failed-send-delivered", "ledger/invented"],
         "C02" => &["order/"],
-        "C04" => &["ledger/mismatch", "ledger/invented"],
+        "C04" => &["ledger/mismatch", "ledger/invented", "hb/race/KanalPtr", "hb/race/owner-returnsxKanalPtr", "hb/race/publishxKanalPtr", "hb/race/re-publishxKanalPtr"],
         "C05" => &["ledger/double-drop", "ledger/leak", "ledger/option", "ledger/drop-of-garbage"],
         "C06" => &["hang/"],
         "C07" => &["hb/race", "life/", "ledger/drop-of-garbage"],
